@@ -1,6 +1,7 @@
 package checks
 
 import (
+	"encoding/base64"
 	"encoding/json"
 	"fmt"
 	"io"
@@ -367,6 +368,92 @@ func c17Run(c *engine.Ctx) {
 	}
 	c.Sample(map[string]any{"document": "objects, 16384 bytes, CRLF, after 2 valid documents", "corruption": "one byte replaced by ? at every byte near each multiple of 512/4096/16384 and at both ends", "transports": "regular file; pipe delivered whole and in chunks of 1, 7, 512, 4096, 16384, 16385"})
 
+	// small documents, every byte: all documents of a small grammar (1..4 members of every scalar kind, three layouts),
+	// one byte replaced by each of 5 bytes at EVERY position, read as values and token by token (--stream), from a file
+	// and from a pipe. (In a small document the counts a decoder keeps -- bytes seen, tokens, delimiters -- are small and
+	// collide with one another, which a large document never shows.)
+	c.Sub("json-small")
+	{
+		scalars := []string{"1", "true", "null", `"x"`, "12.5e3", "false", `"a\nb"`, "-0.5"}
+		var docs []string
+		for i, a := range scalars {
+			b, d := scalars[(i+1)%len(scalars)], scalars[(i+3)%len(scalars)]
+			docs = append(docs, a, "["+a+"]", "["+a+","+b+"]", `{"a":`+a+"}", `{"a":`+a+`,"b":`+b+"}", `{"a":`+a+`,"b":`+b+`,"c":`+d+"}", "["+a+",["+b+"],"+d+"]", `{"a":[`+a+`],"b":{"c":`+b+"}}", a+" "+b, "["+a+"] "+`{"a":`+b+"}",
+				`[{"a":`+a+`},`+b+"]", `{"k":{"k":{"k":`+a+"}}}")
+		}
+		layout := func(doc string, style int) string {
+			if style == 0 {
+				return doc
+			}
+			var sb strings.Builder
+			inStr := false
+			for i := 0; i < len(doc); i++ {
+				ch := doc[i]
+				sb.WriteByte(ch)
+				if ch == '"' && (i == 0 || doc[i-1] != '\\') {
+					inStr = !inStr
+				}
+				if !inStr && strings.IndexByte(",:[{", ch) >= 0 {
+					if style == 1 {
+						sb.WriteByte(' ')
+					} else {
+						sb.WriteString("\n  ")
+					}
+				}
+			}
+			return sb.String()
+		}
+		si := 0
+		for _, d := range docs {
+			for style := 0; style < 3; style++ {
+				si++
+				if !c.MineIdx(si) || c.Expired() {
+					continue
+				}
+				doc := layout(d, style)
+				for p := 0; p < len(doc); p++ {
+					for _, repl := range []byte{'?', 'x', '"', '\\', 0xff, ',', '}'} {
+						if doc[p] == repl {
+							continue
+						}
+						b := []byte(doc)
+						b[p] = repl
+						text := string(b)
+						want := c17FirstError(text)
+						if want < 0 {
+							continue
+						}
+						for ti, tr := range c17Transports[:2] {
+							for _, stream := range []bool{false, true} {
+								args := []string{"-c", "."}
+								if stream {
+									args = []string{"--stream", "-c", "."}
+								}
+								key := fmt.Sprintf("small %q %s stream=%v", text, tr.name, stream)
+								c.Eval()
+								r := c17RunInput(args, text, tr, dir, c.Shard)
+								var msg string
+								switch {
+								case r.Panic != "":
+									msg = "panic: " + r.Panic
+								case r.Status != 5:
+									msg = fmt.Sprintf("status %d for a malformed stream", r.Status)
+								default:
+									msg = c17CheckReport(text, want, r.Stderr)
+								}
+								if msg != "" {
+									c.Violation(key, "json-position", map[string]any{"small": true, "text": head(text, 200), "text_b64": base64.StdEncoding.EncodeToString([]byte(text)), "transport": ti, "stream": stream, "why": msg, "stderr": head(r.Stderr, 300)})
+								}
+							}
+						}
+						c.DistinctN(1)
+					}
+				}
+			}
+		}
+		c.Sample(map[string]any{"document": `{"a":1,"b":tru}`, "documents": len(docs) * 3, "corruption": "one byte replaced by each of ? x \" \\ 0xFF , } at every position", "modes": "values and --stream, file and pipe"})
+	}
+
 	// truncation and deletions; other modes
 	c.Sub("json-modes")
 	idx = 0
@@ -635,6 +722,62 @@ func c17Queries(c *engine.Ctx) {
 			}
 		}
 	}
+	// every sequence of <= 3 tokens over the token kinds of the language: whatever token the parser stops at, the
+	// reported token is the text that stands right before the reported offset
+	c.Sub("query-token-sequences")
+	{
+		toks := []string{".", "..", "|", ",", "as", "def", "if", "then", "else", "elif", "end", "1", "1.5", `"s"`, `"a\(1)b"`, "$x", ".a", `."a"`, "[", "]", "(", ")", "{", "}", ":", ";", "?", "//", "?//", "=", "|=", "==", "and", "or", "not",
+			"label", "import", "include", "module", "reduce", "foreach", "try", "catch", "@base64", "f", "f::g", "$x::y", "$__loc__", "-", "+", "*", "%", "<", "break", "null", "é", "日"}
+		ti := 0
+		check := func(src string, viaCLI bool) {
+			c.Eval()
+			_, err := gojq.Parse(src)
+			pe, ok := err.(*gojq.ParseError)
+			if !ok {
+				c.Outcome("token sequence accepted")
+				return
+			}
+			c.Outcome("token sequence rejected")
+			c.DistinctN(1)
+			if pe.Offset < len(pe.Token) || pe.Offset > len(src) || src[pe.Offset-len(pe.Token):pe.Offset] != pe.Token {
+				at := ""
+				if pe.Offset >= len(pe.Token) && pe.Offset <= len(src) {
+					at = src[pe.Offset-len(pe.Token) : pe.Offset]
+				}
+				c.Violation(src, "parse-error-fields", map[string]any{"query": src, "sequence": true, "why": fmt.Sprintf("ParseError{Offset: %d, Token: %q}, but the %d bytes before that offset are %q", pe.Offset, pe.Token, len(pe.Token), at)})
+				return
+			}
+			if !viaCLI {
+				return
+			}
+			r := RunCLIString([]string{"-n", src}, "")
+			if r.Status != 3 {
+				c.Violation(src, "query-position", map[string]any{"query": src, "sequence": true, "why": fmt.Sprintf("status %d for a query that does not parse", r.Status)})
+				return
+			}
+			c17PlainQuery = true
+			msg := c17CheckReport(src, pe.Offset-len(pe.Token), r.Stderr)
+			c17PlainQuery = false
+			if msg != "" {
+				c.Violation(src+" file=false", "query-position", map[string]any{"query": src, "file": false, "sequence": true, "why": msg, "stderr": head(r.Stderr, 300)})
+			}
+		}
+		for _, a := range toks {
+			ti++
+			if !c.MineIdx(ti) || c.Expired() {
+				continue
+			}
+			check(a, true)
+			for _, b := range toks {
+				check(a+" "+b, true)
+				check("1 "+a+" "+b, true)
+				for _, d := range toks {
+					check(a+" "+b+" "+d, false)
+				}
+			}
+		}
+		c.Sample(map[string]any{"query": "1 as .", "tokens": len(toks), "sequences": "every sequence of <= 3 tokens; the command's report for every sequence of <= 2 tokens, alone and after a complete term"})
+	}
 	c.Sample(map[string]any{"query": "def f: .;\n. as $x |\n  $x \"a\\(1)\"", "expect": "line 3, caret under the opening quote, ParseError.Token = \"\\\"\""})
 }
 
@@ -647,6 +790,20 @@ func c17Replay(v *engine.Violation) (bool, string) {
 	}
 	if v.Check == "yaml-metamorphic" {
 		return true, fmt.Sprint(d["why"])
+	}
+	if v.Check == "json-small" {
+		tb, _ := base64.StdEncoding.DecodeString(d["text_b64"].(string))
+		text, ti, stream := string(tb), int(d["transport"].(float64)), d["stream"].(bool)
+		args := []string{"-c", "."}
+		if stream {
+			args = []string{"--stream", "-c", "."}
+		}
+		r := c17RunInput(args, text, c17Transports[ti], WorkDir(), 99)
+		if r.Status != 5 {
+			return true, fmt.Sprintf("status %d", r.Status)
+		}
+		msg := c17CheckReport(text, c17FirstError(text), r.Stderr)
+		return msg != "", msg + "\n" + head(r.Stderr, 300)
 	}
 	if v.Check == "json" {
 		kind, nl, size, pre, p := d["kind"].(string), d["nl"].(string), int(d["size"].(float64)), int(d["pre"].(float64)), int(d["p"].(float64))
@@ -681,7 +838,7 @@ func init() {
 		ID:    "C17",
 		Level: "fault_enumeration",
 		Rule: "well-formed multi-line documents of 3 kinds (one scalar per line; nested objects with multi-byte and double-width characters; lines longer than the excerpt window) x sizes {40 B, 500 B, 4 KiB, 16 KiB-1/+0/+1, 40 KiB, thorough 70 KiB} x line terminators {LF, CRLF, CR} x 0..3 preceding valid documents (3/9/14 KB, so the 16 KiB window reset falls before, inside and after the faulty document) are corrupted by replacing ONE byte (by ? and by 0xFF) at EVERY byte for small documents and at every byte within +-70 of each multiple of 4096 and 16384, +-6 of each multiple of 512 and the first/last 80 bytes otherwise; each corrupted stream goes through 8 transports (regular file; pipe delivered whole and in chunks of 1, 7, 512, 4096, 16384, 16385), as values and again token by token under --stream (quick: an eighth of the positions, file and whole-pipe transports). " +
-			"The absolute offset of the offending byte comes from encoding/json run by the harness on the same bytes; the reported line must be its 1-based line (LF, CRLF, CR), the quoted text a piece of that line covering it, and the caret under it in terminal columns (go-runewidth). Truncations under default/--stream/-s/--slurpfile; query errors: 52 offending token kinds x 25 contexts (incl. leading blank lines and characters made of several code points) x 4 continuations, as argument and -f file, checked for ParseError Offset/Token and the caret.",
+			"The absolute offset of the offending byte comes from encoding/json run by the harness on the same bytes; the reported line must be its 1-based line (LF, CRLF, CR), the quoted text a piece of that line covering it, and the caret under it in terminal columns (go-runewidth). Every document of a small grammar (96 texts x 3 layouts) with one byte replaced by each of 7 bytes at every position, as values and under --stream, file and pipe. Truncations under default/--stream/-s/--slurpfile; query errors: 52 offending token kinds x 25 contexts (incl. leading blank lines and characters made of several code points) x 4 continuations, as argument and -f file, checked for ParseError Offset/Token and the caret; every sequence of <= 3 tokens over 57 token kinds (the reported token is the text before the reported offset; the command's caret for sequences of <= 2).",
 		Assume:         []string{"encoding/json's SyntaxError.Offset on the harness's own decode of the same bytes locates the offending byte; go-runewidth gives terminal widths"},
 		Run:            c17Run,
 		Replay:         c17Replay,
